@@ -31,7 +31,8 @@ static Verdict analyse(const std::string& xta)
 struct Parts { std::string gdecl_before, gdecl_after, ldecl, inv, guard, update, system; int form = 0; };   // form: how the carrier reaches the system line
 static std::string render(const Parts& p, bool instantiated)
 {
-    std::string s = p.gdecl_before + "clock x; hybrid clock h; double d = 1.5; int i; broadcast chan bc;\n" + p.gdecl_after;
+    std::string s = p.gdecl_before + "clock x; hybrid clock h; double d = 1.5; int i; broadcast chan bc;\n"
+                    "const double CD = 1.5; typedef double real_t; real_t rv = 0.5; double fd() { return 1.5; } struct { double f; } rs; double da[2];\n" + p.gdecl_after;
     // form 0: T() listed directly; 1: T(const int[0,1] id) listed as a process set; 2: T(const int[0,1] id) through a partial instantiation that leaves id open; 3: fully bound instance
     s += std::string("process T(") + (p.form ? "const int[0,1] id" : "") + ") {\n" + p.ldecl + " state A" + (p.inv.empty() ? "" : " { " + p.inv + " }") + ", B;\n init A;\n trans A -> B {" +
          (p.guard.empty() ? "" : " guard " + p.guard + ";") + (p.update.empty() ? "" : " assign " + p.update + ";") + " };\n}\n";
@@ -62,14 +63,17 @@ extern "C" void harness_features()  /* vf: bounds=8_restricting_features_x_place
     bool restricts_symbolic = false, restricts_stochastic = false, restricts_concrete = false, in_template = true;
     switch (feat) {
     case F_CMP_FP: {
-        int place = vf_pick("!place", 2), n = vf_pick("!three_conjuncts", 2) ? 3 : 1; simple = n == 1; int pos = n == 1 ? 0 : vf_pick("!position", 3), swap = vf_pick("!swapped", 2), rel = vf_pick("!rel", 6), form = vf_pick("!fp_form", NFPFORM);
-        static const char* FP[] = {"1.5", "d", "i + 0.5"};
+        int place = vf_pick("!place", 2), n = vf_pick("!three_conjuncts", 2) ? 3 : 1; simple = n == 1; int pos = n == 1 ? 0 : vf_pick("!position", 3), swap = vf_pick("!swapped", 2), rel = vf_pick("!rel", 6), form = vf_pick("!fp_form", NFPFORM + 5);
+        // the floating-point operand: literal, variable, arithmetic - and the carriers whose type is double only behind a wrapper (constant, typedef, call, field, element)
+        static const char* FP[] = {"1.5", "d", "i + 0.5", "CD", "rv", "fd()", "rs.f", "da[1]"};
+        if (form >= NFPFORM) { vf_assume(n == 1 && rel < 2); form = 3 + (form - NFPFORM); }
         std::string c = swap ? std::string(FP[form]) + " " + REL[rel] + " x" : std::string("x ") + REL[rel] + " " + FP[form];
         (place ? p.inv : p.guard) = conj(n, pos, c, vf_pick("!filler", NFPFORM), !place);
         restricts_symbolic = true; break; }
     case F_ASSIGN_FP: {
-        int n = vf_pick("!three_updates", 2) ? 3 : 1; simple = n == 1; int pos = n == 1 ? 0 : vf_pick("!position", 3), form = vf_pick("!form", 5);
-        static const char* AS[] = {"x = 1.5", "x = d", "d = 2.5", "d = d + 1.0", "x = i + 0.5"};
+        int n = vf_pick("!three_updates", 2) ? 3 : 1; simple = n == 1; int pos = n == 1 ? 0 : vf_pick("!position", 3), form = vf_pick("!form", 10);
+        static const char* AS[] = {"x = 1.5", "x = d", "d = 2.5", "d = d + 1.0", "x = i + 0.5", "x = CD", "x = rv", "x = fd()", "x = rs.f", "x = da[1]"};
+        if (form >= 5) vf_assume(n == 1);
         for (int k = 0; k < n; k++) p.update += std::string(k ? ", " : "") + (k == pos ? AS[form] : (k % 2 ? "i = 0" : "x = 0"));
         restricts_symbolic = true; break; }
     case F_INIT_FP: {
